@@ -179,16 +179,34 @@ def check(ctx):
     if len(g) != 1:
         raise AnalysisError("module-level get_modified_time helper not found")
     g = g[0]
-    tries = [n for n in g.own_nodes() if isinstance(n, ast.Try)]
-    ok = len(tries) == 1 and any("getmtime" in norm(s) and g.pos_params[0] in names_in(s) for s in tries[0].body) and \
-        any(norm(h.type) == "OSError" and any(isinstance(s, ast.Return) and const(s.value, 0) is None for s in h.body) for h in tries[0].handlers)
+    # evaluated (any spelling: getmtime / stat().st_mtime, early return / else-branch / result variable)
+    from ..absval import AbsRaise as _AR, Interp as _I, Obj as _O
+    from .c18 import DT_EXT as _DT
+    seen_ts = []
+
+    def _fts(t, tz=None):
+        seen_ts.append(t)
+        return _DT["datetime.datetime.fromtimestamp"](t, tz)
+
+    def _missing(*a, **k):
+        raise _AR("OSError")
+    ext_missing = dict(_DT, **{"os.path.getmtime": _missing, "os.stat": _missing, "os.path.exists": lambda p_: False,
+                               "datetime.datetime.fromtimestamp": _fts})
+    ext_there = dict(_DT, **{"os.path.getmtime": lambda p_: 1234.5,
+                             "os.stat": lambda p_: _O(None, {"st_mtime": 1234.5, "st_mtime_ns": 1234500000000}),
+                             "os.path.exists": lambda p_: True, "datetime.datetime.fromtimestamp": _fts})
+    try:
+        r_missing = _I(m, ext=ext_missing).call_func(g, None, ["/some/path"], {})
+        ok = r_missing is None
+    except _AR as e_:
+        ok = False
     ctx.ob("C12.S3", f"{g.short}/missing-is-None", ok, loc(g), "OSError from getmtime(path) -> None" if ok else "a missing/inaccessible path is not mapped to None")
-    rets = [n for n in g.own_nodes() if isinstance(n, ast.Return) and n.value is not None and not (isinstance(n.value, ast.Constant))]
-    ok = len(rets) == 1 and isinstance(rets[0].value, ast.Call) and "fromtimestamp" in norm(rets[0].value.func) and len(rets[0].value.args) >= 1
-    if ok:
-        tn = rets[0].value.args[0]
-        b = [b for b in g.bindings.get(tn.id, []) if b[0] == "assign"] if isinstance(tn, ast.Name) else []
-        ok = len(b) == 1 and "getmtime" in norm(b[0][1])
+    seen_ts.clear()
+    try:
+        r_there = _I(m, ext=ext_there).call_func(g, None, ["/some/path"], {})
+        ok = r_there is not None and seen_ts == [1234.5]
+    except _AR as e_:
+        ok = False
     ctx.ob("C12.S3", f"{g.short}/from-mtime", ok, loc(g), "datetime built from the file's mtime, unmodified" if ok else "modified time is not the file's mtime")
     fm = filestore.methods.get("get_modified_time")
     rets = [n for n in fm.own_nodes() if isinstance(n, ast.Return)] if fm else []
